@@ -69,8 +69,11 @@ type LoopSpec struct {
 
 type GhostBind struct {
 	Name   string
-	Method string // invoke method name
+	Method string // invoke method name / static callee short name
 	Ord    int
+	Type   string // spec type of the bound value ("" = error)
+	Kind   string // "invoke" (default) | "call"
+	ResIdx int    // tuple element for multi-result callees
 }
 
 type FuncSpec struct {
@@ -613,6 +616,21 @@ func parseSpecFile(path, pkg string) (*SpecFile, error) {
 			sf.Funcs = append(sf.Funcs, cur)
 		case "requires", "ensures", "invariant", "decreases", "stepinv", "defines":
 			tags, name, exprSrc := splitTagsName(rest)
+			if kw == "decreases" {
+				// lexicographic measure: comma separated list of terms
+				parts := splitTopLevelCommas(exprSrc)
+				if curLoop == nil {
+					return nil, fail(l, "decreases outside loop")
+				}
+				for _, part := range parts {
+					pe, err := parseExprString(part)
+					if err != nil {
+						return nil, fail(l, "%v", err)
+					}
+					curLoop.Decreases = append(curLoop.Decreases, Clause{Tags: tags, Name: name, Expr: pe, Src: exprSrc, File: base, Line: l.line})
+				}
+				continue
+			}
 			e, err := parseExprString(exprSrc)
 			if err != nil {
 				return nil, fail(l, "%v", err)
@@ -728,6 +746,20 @@ func parseSpecFile(path, pkg string) (*SpecFile, error) {
 			f := strings.Fields(rest)
 			if len(f) >= 3 && f[0] == "var" {
 				sf.Ghosts = append(sf.Ghosts, &GhostVar{Name: f[1], Type: f[2]})
+			} else if len(f) >= 7 && f[2] == ":=" && strings.HasPrefix(f[3], "result") && f[4] == "of" {
+				// ghost hd H := result0 of call Head #0
+				ord := 0
+				if len(f) >= 8 {
+					ord, _ = strconv.Atoi(strings.TrimPrefix(f[7], "#"))
+				}
+				idx := 0
+				if len(f[3]) > len("result") {
+					idx, _ = strconv.Atoi(f[3][len("result"):])
+				}
+				if cur == nil {
+					return nil, fail(l, "ghost binding outside func")
+				}
+				cur.Ghosts = append(cur.Ghosts, GhostBind{Name: f[0], Type: f[1], Kind: f[5], Method: f[6], Ord: ord, ResIdx: idx})
 			} else if len(f) >= 6 && f[1] == ":=" && f[2] == "result" && f[3] == "of" {
 				// ghost tv := result of invoke Verify #0
 				ord := 0
@@ -817,6 +849,27 @@ func parseSpecFile(path, pkg string) (*SpecFile, error) {
 		}
 	}
 	return sf, nil
+}
+
+func splitTopLevelCommas(s string) []string {
+	var out []string
+	depth := 0
+	start := 0
+	for i := 0; i < len(s); i++ {
+		switch s[i] {
+		case '(', '[':
+			depth++
+		case ')', ']':
+			depth--
+		case ',':
+			if depth == 0 {
+				out = append(out, strings.TrimSpace(s[start:i]))
+				start = i + 1
+			}
+		}
+	}
+	out = append(out, strings.TrimSpace(s[start:]))
+	return out
 }
 
 func splitKw(s string) (string, string) {
